@@ -172,6 +172,13 @@ class RavelOperator(AbstractRavelOrReshapeOperator):
                 f'({last_axis}).'
             )
 
+        for leaf in jax.tree.leaves(in_structure):
+            for axis in (first_axis, last_axis):
+                if not -leaf.ndim <= axis < max(leaf.ndim, 1):
+                    raise ValueError(
+                        f'axis {axis} is out of bounds for leaf of shape {leaf.shape}.'
+                    )
+
         if first_axis < 0 <= last_axis or last_axis < 0 <= first_axis:
             for leaf in jax.tree.leaves(in_structure):
                 first = leaf.ndim + first_axis if first_axis < 0 else first_axis
